@@ -4,10 +4,10 @@ package main
 // WA-CNT, WA-SEL, BT-NONNULL.
 
 import (
-	"regexp"
 	"fmt"
 	"go/token"
 	"go/types"
+	"regexp"
 	"sort"
 	"strings"
 
